@@ -212,6 +212,81 @@ def build_events(cli, drv, tmp, thorough, rep):
     return events, meta, len(hists)
 
 
+def grammar_conformance(rep, drv, tmp, thorough):
+    """Grammar.tla (recogniser transcribed from PacketDsl.g4) versus the real front ends: for every token-level
+    mutation (truncate / drop / duplicate at every k-th token) and a few trailing-garbage texts, the formatter's
+    and the compiler's parser must accept exactly what the grammar derives.  -> cases recorded into rep."""
+    step = 1 if thorough else 3
+    texts = []
+    for name in ("rich", "second", "special", "minimal"):
+        text = docs.DOCS[name]
+        texts.append((name, "orig", text))
+        toks = [t for t in dsltok.tokenize(text) if t.type != "LINE_COMMENT"]
+        for k in range(0, len(toks), step):
+            t = toks[k]
+            texts.append((name, "truncate@%s" % t.type, text[:t.pos]))
+            texts.append((name, "drop@%s" % t.type, text[:t.pos] + text[t.pos + len(t.text):]))
+            texts.append((name, "dup@%s" % t.type, text[:t.pos] + t.text + " " + text[t.pos:]))
+        texts.append((name, "trailing-brace", text + "}\n"))
+        texts.append((name, "trailing-field", text + "u8 stray,\n"))
+        texts.append((name, "leading-brace", "{ " + text))
+        texts.append((name, "trailing-keyword", text + "packet\n"))
+    fm = Fmt(drv, tmp)
+    outs = fm.many([t for _, _, t in texts])
+    events, meta = [], []
+    for (name, mut, t), o in zip(texts, outs):
+        try:
+            types = [x.type for x in dsltok.tokenize(t) if x.type != "LINE_COMMENT"]
+        except dsltok.LexError:
+            continue
+        if o.get("panic"):
+            continue                # crashes are C11's
+        events.append({"toks": types, "accepted": bool(o.get("ok"))})
+        meta.append({"doc": name, "mut": mut, "dsl": t, "front": "format"})
+    # the compiler's front end (ParseFile) on the same texts
+    paths = []
+    for i, (name, mut, t) in enumerate(texts):
+        p = os.path.join(tmp, "g%d.dsl" % i)
+        write(p, t)
+        paths.append(p)
+
+    def parse(p):
+        r = run([drv, "seq", p, ""], timeout=60)
+        try:
+            return json.loads(r.stdout).get("parse", {})
+        except ValueError:
+            return {"panic": "driver died"}
+    for (name, mut, t), po in zip(texts, pmap(parse, paths, workers=16)):
+        try:
+            types = [x.type for x in dsltok.tokenize(t) if x.type != "LINE_COMMENT"]
+        except dsltok.LexError:
+            continue
+        if po.get("panic"):
+            continue
+        syntactically_ok = not (po.get("err") or "").startswith("syntax errors found")
+        events.append({"toks": types, "accepted": syntactically_ok})
+        meta.append({"doc": name, "mut": mut, "dsl": t, "front": "compile"})
+    text = "\n".join(json.dumps(e, separators=(",", ":")) for e in events) + "\n"
+    r = tlc.run_tlc("TraceGrammar", "SPECIFICATION Spec\nPOSTCONDITION Accepted\nCHECK_DEADLOCK FALSE\n", workers=1, timeout=1500,
+                    extra_files={"trace.ndjson": text}, heap="4g")
+    if not r.ok or r.depth != len(events) + 1:
+        raise Infra("TraceGrammar failed: rc=%s %s depth=%s/%s\n%s" % (r.rc, r.errors[:3], r.depth, len(events) + 1, r.out[-1500:]))
+    rep.tlc(r, traces=len(events))
+    bad = {v["i"]: v for v in r.verdicts}
+    for i, (e, m) in enumerate(zip(events, meta), 1):
+        base = "%s|grammar|%s|%s" % (m["doc"], m["mut"], m["front"])
+        v = bad.get(i)
+        if not v:
+            rep.case(base, True)
+            continue
+        kind = "parser-accepts-invalid" if v["parser"] else "parser-rejects-valid"
+        rep.case(base + "|" + kind, False, "%s front end %s the text `%s` of document %s, Grammar.tla says %s" % (
+            m["front"], "accepts" if v["parser"] else "rejects", m["mut"], m["doc"], "valid" if v["grammar"] else "invalid"),
+            {"dsl": m["dsl"], "front": m["front"], "grammar_accepts": v["grammar"], "parser_accepts": v["parser"],
+             "how": "overlay driver: fmt (parser.FormatPacketDsl) / seq (parser.ParseFile)"})
+    rep.cov["grammar_conformance_texts"] = len(events)
+
+
 def run_check(pid, tier):
     rep = Report(pid, tier, "model_checking")
     thorough = tier == "thorough"
@@ -222,6 +297,8 @@ def run_check(pid, tier):
     kinds = C09_KINDS if pid == "C09" else C10_KINDS
     with Scratch() as tmp:
         events, meta, nh = build_events(cli, drv, tmp, thorough, rep)
+        if pid == "C09":
+            grammar_conformance(rep, drv, tmp, thorough)
     text = "\n".join(json.dumps(e, sort_keys=True, separators=(",", ":")) for e in events) + "\n"
     cfg = "SPECIFICATION Spec\nPOSTCONDITION Accepted\nCHECK_DEADLOCK FALSE\n"
     r = tlc.run_tlc("TraceFormat", cfg, workers=1, timeout=1800, extra_files={"trace.ndjson": text}, heap="6g")
